@@ -57,20 +57,41 @@ def gen_spec(rng, kind=None):
     for vi, v in enumerate(variants):
         for r in range(2 if v["fields"] else 1):
             vals.append((vi, len(vals) + 1))
-    return {"kind": kind, "variants": variants, "generic": generic, "vals": vals, "entry": rng.choice(["attr", "derive"]), "copy": copy}
+    # how it is written must not matter: Debug co-derived with #[debug(ignore)] on cloned fields, the list split over two
+    # attributes, an explicit `bound(..)` that keeps the defaults
+    co = rng.choice([None, None, None, "Debug-first", "Debug-last"])
+    if co:
+        for v in variants:
+            for f in v["fields"]:
+                f["dbg_ignore"] = rng.random() < 0.5
+    return {"kind": kind, "variants": variants, "generic": generic, "vals": vals, "entry": rng.choice(["attr", "derive"]), "copy": copy,
+            "co": co, "split": rng.random() < 0.2, "bound": rng.random() < 0.15}
 
 
 def type_text(spec, control=False):
     g = "<T>" if spec["generic"] else ""
     tl = {None: "Clone", "before": "Copy, Clone", "after": "Clone, Copy"}[spec.get("copy")]
-    head = f"#[::derive_ex::derive_ex({tl})]\n" if spec["entry"] == "attr" else f"#[derive(::derive_ex::Ex)]\n#[derive_ex({tl})]\n"
+    if spec.get("bound"):
+        tl = tl.replace("Clone", "Clone(bound(..))")
+    if spec.get("co") == "Debug-first":
+        tl = "Debug, " + tl
+    elif spec.get("co"):
+        tl = tl + ", Debug"
+    parts = [tl]
+    if spec.get("split") and ", " in tl:
+        a, b = tl.split(", ", 1)
+        parts = [a, b]
+    if spec["entry"] == "attr":
+        head = f"#[::derive_ex::derive_ex({parts[0]})]\n" + "".join(f"#[derive_ex({x})]\n" for x in parts[1:])
+    else:
+        head = "#[derive(::derive_ex::Ex)]\n" + "".join(f"#[derive_ex({x})]\n" for x in parts)
     if control:
         head = "#[derive(Clone)]\n"
     bodies = []
     for v in spec["variants"]:
-        tys = [FK[f["kind"]][0] for f in v["fields"]]
+        tys = [("#[debug(ignore)] " if (not control and spec.get("co") and f.get("dbg_ignore")) else "") + FK[f["kind"]][0] for f in v["fields"]]
         if v["style"] == "named":
-            bodies.append("{ " + ", ".join(f"f{i}: {t}" for i, t in enumerate(tys)) + " }")
+            bodies.append("{ " + ", ".join((t.replace("#[debug(ignore)] ", "#[debug(ignore)] " + f"f{i}: ", 1) if t.startswith("#[debug") else f"f{i}: {t}") for i, t in enumerate(tys)) + " }")
         elif v["style"] == "tuple":
             bodies.append("(" + ", ".join(tys) + ")")
         else:
